@@ -1,20 +1,27 @@
-//! Growth beyond the listed properties: stats::Linkage against spec/HpoLinkage.tla.
+//! C17: stats::Linkage against spec/HpoLinkage.tla.
 //! The specification is nondeterministic (ties): the dendrogram the crate returns must be ONE of
 //! the allowed merge sequences TLC computed.
 use crate::util::*;
 use hpo::builder::Builder;
 use hpo::stats::Linkage;
 use hpo::term::HpoGroup;
+use hpo::annotations::AnnotationId;
 use hpo::HpoSet;
 use serde_json::{json, Value};
 
 pub fn replay_line(st: &mut Stats, prop: &str, line: &Value) {
     st.cases += 1;
     st.evaluations += 1;
+    st.nontrivial += 1;
     let n = line["n"].as_u64().unwrap() as usize;
     let scale = line["scale"].as_f64().unwrap() as f32;
-    let d0: Vec<f32> = arr(&line["d0"]).iter().map(|x| x.as_f64().unwrap() as f32 / scale).collect();
+    let union_mode = line["mode"].as_str().unwrap() == "union";
+    let div = if union_mode { 1.0 } else { scale };
+    let d0: Vec<f32> = arr(&line["d0"]).iter().map(|x| x.as_f64().unwrap() as f32 / div).collect();
+    let w: Vec<f32> = arr(&line["w"]).iter().map(|x| x.as_f64().unwrap() as f32).collect();
     let mode = line["mode"].as_str().unwrap();
+    // every call of the distance callback: the pairs it was offered, as sorted term-id lists
+    let calls: std::cell::RefCell<Vec<Vec<(Vec<u32>, Vec<u32>)>>> = std::cell::RefCell::new(vec![]);
     let res = catch(|| {
         let mut b = Builder::new();
         for i in 0..n {
@@ -28,34 +35,134 @@ pub fn replay_line(st: &mut Stats, prop: &str, line: &Value) {
                 HpoSet::new(&ont, g)
             })
             .collect();
-        let d = d0.clone();
-        let dist = move |c: hpo::utils::Combinations<HpoSet<'_>>| -> Vec<f32> {
-            let cnt = c.count();
-            d.iter().copied().take(cnt).collect()
+        let ids = |s: &HpoSet<'_>| -> Vec<u32> {
+            let mut v: Vec<u32> = s.iter().map(|t| t.id().as_u32()).collect();
+            v.sort_unstable();
+            v
+        };
+        let weight = |v: &[u32]| -> f32 { v.iter().map(|t| w[(*t - 10) as usize]).sum() };
+        let dist = |c: hpo::utils::Combinations<HpoSet<'_>>| -> Vec<f32> {
+            let pairs: Vec<(Vec<u32>, Vec<u32>)> = c.map(|(a, b)| (ids(a), ids(b))).collect();
+            let first = calls.borrow().is_empty();
+            let out: Vec<f32> = if union_mode {
+                // the user distance: |W(A) - W(B)|, a function of the CONTENT of the two sets
+                pairs.iter().map(|(a, b)| (weight(a) - weight(b)).abs()).collect()
+            } else if first {
+                d0.iter().copied().take(pairs.len()).collect()
+            } else {
+                vec![f32::NAN; pairs.len()]
+            };
+            calls.borrow_mut().push(pairs);
+            out
         };
         let l = match mode {
             "single" => Linkage::single(sets, dist),
             "complete" => Linkage::complete(sets, dist),
-            _ => Linkage::average(sets, dist),
+            "average" => Linkage::average(sets, dist),
+            _ => Linkage::union(sets, dist),
         };
-        l.cluster().map(|c| (c.lhs() as u64, c.rhs() as u64, c.distance(), c.len() as u64)).collect::<Vec<_>>()
+        let cl = l.cluster().map(|c| (c.lhs() as u64, c.rhs() as u64, c.distance(), c.len() as u64)).collect::<Vec<_>>();
+        let idx: Vec<u64> = l.indicies().into_iter().map(|x| x as u64).collect();
+        let into: Vec<(u64, u64, f32, u64)> = l.into_cluster().map(|c| (c.lhs() as u64, c.rhs() as u64, c.distance(), c.len() as u64)).collect();
+        (cl, idx, into)
     });
     let mut d: Vec<String> = vec![];
     match res {
         Err(p) => d.push(format!("Linkage::{mode} panicked: {p}")),
-        Ok(got) => {
+        Ok((got, idx, into)) => {
             let allowed = arr(&line["allowed"]);
-            let matches = |seq: &Value| -> bool {
-                let s = arr(seq);
+            let matches = |a: &Value| -> bool {
+                let s = arr(&a["merges"]);
                 s.len() == got.len()
                     && s.iter().zip(got.iter()).all(|(w, g)| {
                         let (wl, wr) = (w["lhs"].as_u64().unwrap(), w["rhs"].as_u64().unwrap());
-                        let wd = w["dist"].as_f64().unwrap() as f32 / scale;
+                        let wd = w["dist"].as_f64().unwrap() as f32 / div;
                         ((wl, wr) == (g.0, g.1) || (wl, wr) == (g.1, g.0)) && (wd - g.2).abs() < 1e-6 && w["size"].as_u64().unwrap() == g.3
                     })
             };
             if !allowed.iter().any(matches) {
-                d.push(format!("Linkage::{mode} on distances {:?} returned {:?}, which is none of the {} allowed dendrograms", d0, got, allowed.len()));
+                d.push(format!("Linkage::{mode} on distances {:?} (weights {:?}) returned {:?}, which is none of the {} allowed dendrograms", d0, w, got, allowed.len()));
+            }
+            if into != got {
+                d.push(format!("Linkage::{mode}: into_cluster() {:?} differs from cluster() {:?}", into, got));
+            }
+            // tree shape, independent of the tie break
+            if got.len() + 1 != n {
+                d.push(format!("Linkage::{mode}: {} merges for {} sets", got.len(), n));
+            }
+            let mut used: Vec<u64> = got.iter().flat_map(|g| [g.0, g.1]).collect();
+            used.sort_unstable();
+            if used != (0..(2 * n as u64).saturating_sub(2)).collect::<Vec<_>>() {
+                d.push(format!("Linkage::{mode}: merged indices {:?} are not every input and intermediate cluster exactly once", used));
+            }
+            for (k, g) in got.iter().enumerate() {
+                if g.0 >= (n + k) as u64 || g.1 >= (n + k) as u64 {
+                    d.push(format!("Linkage::{mode}: merge {k} refers to cluster {} / {} which does not exist yet", g.0, g.1));
+                }
+            }
+            if got.last().map(|g| g.3) != Some(n as u64) {
+                d.push(format!("Linkage::{mode}: size of the last merge is {:?}, expected {n}", got.last().map(|g| g.3)));
+            }
+            // the leaf order: a permutation, and the order in which the merges mention the inputs
+            let mut exp_idx: Vec<u64> = vec![];
+            for g in &got {
+                if g.0 < n as u64 {
+                    exp_idx.push(g.0);
+                }
+                if g.1 < n as u64 {
+                    exp_idx.push(g.1);
+                }
+            }
+            let mut sorted = idx.clone();
+            sorted.sort_unstable();
+            if sorted != (0..n as u64).collect::<Vec<_>>() {
+                d.push(format!("Linkage::{mode}: indicies() = {:?} is not a permutation of 0..{n}", idx));
+            } else if idx != exp_idx {
+                d.push(format!("Linkage::{mode}: indicies() = {:?}, the merges mention the inputs in the order {:?}", idx, exp_idx));
+            }
+            // the callback: first call = every unordered pair of inputs exactly once
+            let calls = calls.borrow();
+            let mut first: Vec<(u32, u32)> = calls.first().map(|c| c.iter().map(|(a, b)| (a[0].min(b[0]), a[0].max(b[0]))).collect()).unwrap_or_default();
+            first.sort_unstable();
+            let mut want: Vec<(u32, u32)> = vec![];
+            for i in 0..n as u32 {
+                for j in (i + 1)..n as u32 {
+                    want.push((10 + i, 10 + j));
+                }
+            }
+            if first != want || calls.first().map_or(true, |c| c.iter().any(|(a, b)| a.len() != 1 || b.len() != 1)) {
+                d.push(format!("Linkage::{mode}: the first call of the distance callback offered the pairs {:?}, expected every unordered pair once: {:?}", first, want));
+            }
+            if !union_mode && calls.len() != 1 {
+                d.push(format!("Linkage::{mode}: the distance callback was called {} times, the arithmetic methods need it once", calls.len()));
+            }
+            if union_mode {
+                // k-th later call: new cluster (union of the merged sets) against every live set
+                if calls.len() != n {
+                    d.push(format!("Linkage::union: the distance callback was called {} times, expected {n} (initial + one per merge)", calls.len()));
+                }
+                let mut members: Vec<Vec<u32>> = (0..n as u32).map(|i| vec![10 + i]).collect();
+                let mut live: Vec<bool> = vec![true; n];
+                for (k, g) in got.iter().enumerate() {
+                    let (a, b) = (g.0 as usize, g.1 as usize);
+                    if a >= members.len() || b >= members.len() {
+                        break;
+                    }
+                    let mut m = members[a].clone();
+                    m.extend(members[b].iter().copied());
+                    m.sort_unstable();
+                    live[a] = false;
+                    live[b] = false;
+                    if let Some(call) = calls.get(k + 1) {
+                        let want: Vec<(Vec<u32>, Vec<u32>)> = live.iter().enumerate().filter(|(_, l)| **l).map(|(i, _)| (m.clone(), members[i].clone())).collect();
+                        let offered: Vec<(Vec<u32>, Vec<u32>)> = call.iter().take(want.len()).cloned().collect();
+                        if offered != want {
+                            d.push(format!("Linkage::union: after merge {k} the callback was offered {:?}, expected the union {:?} against every live set: {:?}", call, m, want));
+                        }
+                    }
+                    members.push(m);
+                    live.push(true);
+                }
             }
         }
     }
